@@ -9,6 +9,7 @@ import (
 	"crypto/tls"
 	"errors"
 	"fmt"
+	"math"
 	"net"
 	"time"
 
@@ -251,7 +252,11 @@ func (s *Server) createAllocationManager(
 }
 
 func (s *Server) readLoop(conn net.PacketConn, allocationManager *allocation.Manager, tlsState *tls.ConnectionState) {
-	buf := make([]byte, s.inboundMTU)
+	// The buffer holds the largest UDP payload, so that no transport ever has
+	// to cut a read short (some report that as an error, which would end this
+	// loop for every client): a datagram of inboundMTU bytes or more is
+	// recognised by its length and dropped below.
+	buf := make([]byte, max(s.inboundMTU, math.MaxUint16))
 	for {
 		n, addr, err := conn.ReadFrom(buf)
 		switch {
